@@ -223,6 +223,8 @@ func TestC07(t *testing.T) {
 	seenOracle := map[string]bool{}
 	baseSpin := spinTimeout
 	afterOracle := 0 // cases run since the first failing input was found
+	var divergenceSpent time.Duration // wall time spent searching from / shrinking divergences (bounded)
+	const divergenceBudget = 60 * time.Second
 	handle := func(name string, cfg config, res caseResult) {
 		if len(seenOracle) > 0 {
 			afterOracle++
@@ -251,11 +253,18 @@ func TestC07(t *testing.T) {
 				return
 			}
 			seenDivergence[sig] = true
+			if divergenceSpent > divergenceBudget {
+				run.Count("divergence-budget-exhausted")
+				report(run, name, res)
+				return
+			}
+			began := realNow()
+			defer func() { divergenceSpent += realNow() - began }()
 			prefix := res.script[1:]
 			if res.diverged > 0 && res.diverged <= len(res.script) {
 				prefix = res.script[1:res.diverged]
 			}
-			for k := 0; k < 60; k++ {
+			for k := 0; k < 60 && realNow()-began < divergenceBudget/3; k++ {
 				r := hx.NewRand(run.Seed, "C07/continue/"+name, k)
 				g := &generator{r: r, steps: r.Range(4, 30), maxFaults: r.PickInt(0, 0, 1), calm: k%3 != 0, slowIO: k%3 == 0}
 				ext := runCase(t, model, cfg, then(prefix, g))
@@ -305,6 +314,30 @@ func TestC07(t *testing.T) {
 	for name, script := range run.CorpusScripts() {
 		if cfg, ok := parseCfg(script[0]); ok {
 			handle("corpus/"+name, cfg, runCase(t, model, cfg, scripted(script[1:])))
+		}
+	}
+	// directed family: an upload finalized at each point of an iteration (inside [NotifySyncStarting,
+	// NotifySyncCompleted], during a retry sleep, during the state write, during the two syncs of a
+	// shutdown), after which nothing but the clock moves - the upload must still get committed.
+	for ci, cfg := range []config{{100, 30, 3, 16, 4}, {60, 60, 2, 16, 8}, {30, 50, 4, 16, 4}} {
+		start := []string{"push", "alloc 0 5", "finnext", "tickd"} // first data sync is in flight
+		quiet := []string{"tickmin", "tickmin", "tickretry", "tickmin"}
+		for di, mid := range [][]string{
+			{"alloc 0 5", "finnext", "sync ok", "write p ok"},
+			{"alloc 0 5", "finnext", "tickmin", "sync ok", "write p ok"},
+			{"sync fail", "alloc 0 5", "finnext", "tickretry", "sync ok", "write p ok"},
+			{"alloc 0 5", "sync fail", "finnext", "tickretry", "sync ok", "write p fail", "tickretry", "write p ok"},
+			{"sync ok", "alloc 0 5", "finnext", "write p ok"},
+			{"alloc 0 5", "finnext", "sync ok", "alloc 0 5", "finnext", "write p ok"},
+			{"push", "alloc 0 5", "alloc 1 5", "finnext", "sync ok", "finnext", "write p ok"},
+			{"alloc 0 5", "finnext", "sync ok", "pop", "write p ok", "write r ok"},
+			{"alloc 0 5", "alloc 0 5", "finnext", "sync ok", "write p ok", "tickmin", "finnext", "sync ok", "write p ok"},
+			{"cancel", "alloc 0 5", "finnext", "sync ok", "write p ok"},
+			{"sync ok", "write p ok", "alloc 0 5", "finnext", "cancel", "alloc 0 5", "finnext", "sync ok", "sync ok", "write p ok"},
+		} {
+			ops := append(append(append([]string{}, start...), mid...), quiet...)
+			handle(fmt.Sprintf("directed/%d-%d", ci, di), cfg, runCase(t, model, cfg, scripted(ops)))
+			run.Count("directed")
 		}
 	}
 	// exhaustive small scope: every sequence of k symbolic operations after a prefix that parks the first data sync
